@@ -21,6 +21,7 @@ def dispatch (j : Json) : Json :=
   match Driver.str j "op" with
   | "pending" => Driver.handlePending j
   | "exec" => Driver.handleExec j
+  | "set.run" => Driver.handleSetRun j
   | "hash.validate" => Driver.handleHashValidate j
   | "hash.sum" => Driver.handleHashSum j
   | "lex.scan" => Driver.handleLexScan j
